@@ -361,6 +361,14 @@ def run_case(case):
                 m.load_data(np.zeros((len(rs), 1)), np.array(y), sensitive_features=np.array(a))
                 g = m.gamma(lambda X_: np.array(p, float))
                 o.append(sorted((str(_lab(tuple(i))), round(float(v), 12)) for i, v in g.items()))
+                # loss moment: per-row signed weights must travel with their rows
+                bgl = red.BoundedGroupLoss(red.ZeroOneLoss(), upper_bound=0.1)
+                bgl.load_data(np.zeros((len(rs), 1)), np.array(y), sensitive_features=np.array(a))
+                lam = pd.Series({grp: 0.5 + "abc".index(grp) for grp in sorted(set(a))})
+                wv = np.asarray(bgl.signed_weights(lam), float)
+                o.append(sorted((str(r), round(float(v), 12)) for r, v in zip(rs, wv)))
+                gb = bgl.gamma(lambda X_: np.array(p, float))
+                o.append(sorted((str(i), round(float(v), 12)) for i, v in gb.items()))
             return [None if isinstance(v, float) and math.isnan(v) else v for v in o]
         out["evals"] += 2
         a_, b_ = obs(rows), obs(srt)
